@@ -9,6 +9,7 @@ import (
 	"testing"
 
 	"github.com/btcsuite/btcd/btcec/v2"
+	"github.com/lightninglabs/lightning-node-connect/mailbox"
 )
 
 type fieldSpan struct {
@@ -360,5 +361,60 @@ func TestC03(t *testing.T) {
 				bit, cli.Err, srv.Err, len(sc.writeLog)), bit)
 		}
 		r.Case(fmt.Sprintf("pwbit:%d", bit), true, "passphrase-bit")
+	}
+	// the XX pattern asked for explicitly on ConnData that already hold a remote key (re-pairing):
+	// the passphrase decides, exactly as on fresh ConnData
+	for _, same := range []bool{true, false} {
+		for _, vr := range [][2]byte{{0, 2}, {2, 2}, {0, 0}} {
+			pa := []byte("pairing-phrase-entropy")
+			pb := pa
+			if !same {
+				pb = []byte("pairing-phrase-entropz")
+			}
+			xx := mailbox.XXPattern
+			cli := &hsSide{Priv: key(5101), Passphrase: pa, Min: vr[0], Max: vr[1], Pattern: &xx}
+			srv := &hsSide{Priv: key(5102), Passphrase: pb, AuthData: []byte("macaroon"), Min: vr[0], Max: vr[1], Pattern: &xx}
+			cli.Remote, srv.Remote = srv.Priv.PubKey(), cli.Priv.PubKey()
+			cc, sc := newMemPair()
+			runHandshake(cli, srv, cc, sc)
+			completed := cli.Err == nil && srv.Err == nil
+			if same && !completed {
+				r.Violate("C03/right-secret-rejected", fmt.Sprintf("XX asked for explicitly on paired ConnData, same passphrase, versions %v: client %v, server %v", vr, cli.Err, srv.Err), vr)
+			}
+			if !same && (cli.Err == nil || srv.Err == nil || len(sc.writeLog) != 0) {
+				r.Violate("C03/completed-without-secret", fmt.Sprintf("XX asked for explicitly on ConnData that hold a remote key, different passphrases, versions %v: client err %v, server err %v, server wrote %d messages",
+					vr, cli.Err, srv.Err, len(sc.writeLog)), vr)
+			}
+			r.Case(fmt.Sprintf("xx-on-paired:%v:%v", same, vr), !same, "xx-on-paired")
+		}
+	}
+	// the application keeps its passphrase in one buffer and overwrites it in place between
+	// pairings: only the bytes in the buffer at the time of a handshake count
+	{
+		buf := []byte("pairing-phrase-entropy")
+		old := append([]byte(nil), buf...)
+		hist := []string{}
+		round := func(label string, peer []byte, want bool) {
+			hist = append(hist, label)
+			cli := &hsSide{Priv: key(5201), Passphrase: buf, Min: 0, Max: 2}
+			srv := &hsSide{Priv: key(5202), Passphrase: peer, AuthData: []byte("macaroon"), Min: 0, Max: 2}
+			cc, sc := newMemPair()
+			runHandshake(cli, srv, cc, sc)
+			completed := cli.Err == nil && srv.Err == nil
+			switch {
+			case want && !completed:
+				r.Violate("C03/right-secret-rejected", fmt.Sprintf("%s: client %v, server %v", label, cli.Err, srv.Err), hist)
+			case !want && (cli.Err == nil || srv.Err == nil || len(sc.writeLog) != 0):
+				r.Violate("C03/completed-without-secret", fmt.Sprintf("%s: the initiator's passphrase buffer was overwritten in place since an earlier handshake; client err %v, server err %v, server wrote %d messages",
+					label, cli.Err, srv.Err, len(sc.writeLog)), append([]string(nil), hist...))
+			}
+			r.Case("pw-buffer:"+label, !want, "passphrase-buffer-reuse")
+		}
+		round("both sides hold phrase 1", old, true)
+		copy(buf, "another-phrase-entropy")
+		round("initiator's buffer now holds phrase 2, responder still phrase 1", old, false)
+		round("both sides hold phrase 2", append([]byte(nil), buf...), true)
+		copy(buf, old)
+		round("initiator back to phrase 1, responder at phrase 2", []byte("another-phrase-entropy"), false)
 	}
 }
